@@ -1060,6 +1060,7 @@ static int
 tp_task_connect_ex_start(tp_task_p tptask, int do_connect) {
 	int error;
 	uint64_t time_limit_ms = 0, time_run_ms;
+	size_t addrs_cur;
 	struct timespec	time_now;
 	tp_task_conn_prms_p conn_prms;
 
@@ -1118,9 +1119,11 @@ try_connect:
 	    SO_F_NONBLOCK, &tptask->tp_data.ident);
 	if (0 != error) /* Cant create socket. */
 		return (error);
+	addrs_cur = tptask->tot_transfered_size; /* tp_task_start() reset it. */
 	error = tp_task_start(tptask, TP_EV_WRITE,
 	    TP_F_ONESHOT, tptask->timeout, tptask->offset,
 	    tptask->buf, tptask->cb_func);
+	tptask->tot_transfered_size = addrs_cur;
 	if (0 != error) {
 		close((int)tptask->tp_data.ident);
 		tptask->tp_data.ident = (uintptr_t)-1;
